@@ -37,7 +37,7 @@ ASSUMPTIONS = [
     "K_IRQ=4 and K_WAKE=2 boundaries are the promptness bounds",
 ]
 PROBES = ["delivery", "nested_delivery", "delivery_out_of_halt", "delivery_after_wait", "rise_while_masked",
-          "unmask_window", "reti", "ir", "wake", "onk_while_off", "event_inside_handler",
+          "masked_then_taken", "reti", "ir", "wake", "onk_while_off", "event_inside_handler",
           "both_timers_same_step", "two_sources_deliverable", "halted_boundary", "off_boundary"]
 
 ALLOW = {"timers": True, "keys": True, "onk": True, "imr_writes": True, "isr_writes": True, "wait": True,
@@ -46,10 +46,10 @@ ALLOW = {"timers": True, "keys": True, "onk": True, "imr_writes": True, "isr_wri
 
 def batches(tier: str) -> List[Batch]:
     if tier == "quick":
-        return [Batch("rs-clean", "rs-machine", 1500, 50, faulty=False),
-                Batch("rs-faulty", "rs-machine", 6000, 50),
-                Batch("py-clean", "py-machine", 160, 8, faulty=False),
-                Batch("py-faulty", "py-machine", 640, 8)]
+        return [Batch("rs-clean", "rs-machine", 4000, 100, faulty=False),
+                Batch("rs-faulty", "rs-machine", 16000, 100),
+                Batch("py-clean", "py-machine", 480, 10, faulty=False),
+                Batch("py-faulty", "py-machine", 1920, 10)]
     return [Batch("rs-clean", "rs-machine", 40000, 200, faulty=False),
             Batch("rs-faulty", "rs-machine", 200000, 200),
             Batch("py-clean", "py-machine", 4000, 16, faulty=False),
